@@ -281,6 +281,22 @@ func genGjob(r *vh.Rng, uid int64) gjob {
 	if !r.Chance(1, 10) {
 		g.finish = ptrI(t0 + int64(r.Intn(86400*30))*sec + int64(vh.Pick(r, []int{0, 0, 1, 999999999, 500000000})))
 	}
+	// creation: unset (as in the package's own tests), long before / shortly before / after the finish time
+	ref := t0 + 15*86400*sec
+	if g.finish != nil {
+		ref = *g.finish
+	}
+	switch r.Intn(6) {
+	case 0:
+	case 1:
+		g.created = ptrI(ref + int64(r.Range(1, 5000))*sec)
+	case 2:
+		g.created = ptrI(ref)
+	case 3:
+		g.created = ptrI(ref - int64(r.Range(1, 100))*sec)
+	default:
+		g.created = ptrI(ref - int64(r.Range(1, 400))*86400*sec)
+	}
 	return g
 }
 
@@ -298,8 +314,20 @@ func genGjobRel(r *vh.Rng, uid int64, expired bool) gjob {
 		exp = d
 	}
 	g.finish = ptrI(exp - ttl*sec)
+	// creation (relative too): mostly so old that creation + TTL has long passed
+	switch r.Intn(5) {
+	case 0:
+	case 1:
+		g.created = ptrI(*g.finish - int64(r.Range(1, 50))*sec)
+	case 2:
+		g.created = ptrI(*g.finish + int64(r.Range(1, 50))*sec) // finish recorded before creation
+	default:
+		g.created = ptrI(-int64(r.Range(2, 400)) * 86400 * sec)
+	}
 	return g
 }
+
+var sweepTTL = []*int64{nil, ptrI(0), ptrI(10), ptrI(86400)}
 
 // ---------- histories ----------
 
@@ -535,6 +563,60 @@ func gen(rng *vh.Rng, n int, emit func(id string, sel int, in []int64, kind stri
 		// finished in the future (clock skew)
 		g := gjob{uid: int64(1 + i), phase: 1, ttl: ptrI(ttl), finish: ptrI(fin)}
 		emit(fmt.Sprintf("gc-skew-%d", i), 1, cat(g.enc(), []int64{fin - 30*sec}), "gc/timeLeft-boundary", true, nil)
+	}
+	// every phase x TTL x recorded finish time (unset / in the future / equal to now / before creation /
+	// past) x creation (unset / so old that creation + TTL has passed / recent): the finish time is the
+	// recorded one or nothing, never the creation time (seed C18-r4-2)
+	since := t0 + 200*86400*sec
+	k := 0
+	for ph := int64(0); ph <= 3; ph++ {
+		for _, ttl := range sweepTTL {
+			for fv := 0; fv < 5; fv++ {
+				for cv := 0; cv < 3; cv++ {
+					g := gjob{uid: int64(1 + k%7), phase: ph, ttl: ttl}
+					switch cv {
+					case 1:
+						g.created = ptrI(since - 100*86400*sec)
+					case 2:
+						g.created = ptrI(since - 5*sec)
+					}
+					switch fv {
+					case 1:
+						g.finish = ptrI(since + 50*sec)
+					case 2:
+						g.finish = ptrI(since)
+					case 3:
+						g.finish = ptrI(since - 150*86400*sec) // before the creation stamp
+					case 4:
+						g.finish = ptrI(since - 3600*sec)
+					}
+					emit(fmt.Sprintf("gc-sweep-timeleft-%d", k), 1, cat(g.enc(), []int64{since}), "gc/finish-time-sweep",
+						ph != 0 && ttl != nil, nil)
+					emit(fmt.Sprintf("gc-sweep-enqueue-%d", k), 4, g.enc(), "gc/finish-time-sweep", ph != 0 && ttl != nil, nil)
+					k++
+				}
+			}
+			// the same through the real processJob and the real clock (offsets relative to the run;
+			// an expiry of an eligible job stays >= 5 s away from it), creation 30 days ago
+			for fv := 0; fv < 5; fv++ {
+				g := gjob{uid: int64(1 + k%7), phase: ph, ttl: ttl, created: ptrI(-30 * 86400 * sec)}
+				switch fv {
+				case 1:
+					g.finish = ptrI(60 * sec)
+				case 2:
+					if ttl != nil && *ttl < 10 {
+						continue
+					}
+					g.finish = ptrI(0)
+				case 3:
+					g.finish = ptrI(-40 * 86400 * sec)
+				case 4:
+					g.finish = ptrI(-2 * 86400 * sec)
+				}
+				emit(fmt.Sprintf("gc-sweep-process-%d-%d", k, fv), 3, cat(encOptGjob(&g), encOptGjob(&g)), "gc/finish-time-sweep",
+					ph != 0 && ttl != nil, nil)
+			}
+		}
 	}
 	// DESIGN F8: a weekday schedule over a weekend
 	f8 := choiceCase{sid: 4, tz: 1, created: t0 + 6*3600*sec, now: t0 + (2*86400+12*3600)*sec, incl: true}
